@@ -279,6 +279,7 @@ def run(cx):
         p = os.path.join(gen, name + ".v")
         if not os.path.exists(p) or open(p).read() != txt:
             open(p, "w").write(txt)
+    cx.log("translators done")
     cx.prove()
     if tr is not None:
         todo = [n for n in obl if pr is not None or not n.startswith("CancelProg")]
@@ -314,6 +315,7 @@ def run(cx):
         cx.cov["reset_order"] = tr["reset_order"]
         cx.cov["completion_topup_in_GetCsgLeafNode"] = tr["topup"]
 
+    cx.log("table obligations done")
     # 2. dynamic part
     if not hook_present():
         cx.broke("hook:C15", "hooks/C15.patch (MANIFOLD_VERIF countdown in IsCancelled, src/execution_impl.h) is not applied to %s: "
@@ -337,6 +339,7 @@ def run(cx):
     totals = {"evaluations": 0, "nontrivial": 0, "dist": {}, "samples": 0}
     for variant in variants:
         dynamic(cx, tr, drv, variant, totals, pr)
+        cx.log("dynamic %s done: %d runs so far" % (variant, totals["evaluations"]))
     ign = [k for k in os.environ.get("VERIF_C15_IGNORE", "").split(",") if k]
     if ign:      # self-validation aid only (mutant runs before a finding is listed in known_findings.txt); never set by bin/check
         cx.notes.append("violation keys dropped by VERIF_C15_IGNORE: %s" % ign)
